@@ -98,6 +98,7 @@ func New(next http.Handler, extract utils.SourceExtractor, defaultRates *RateSet
 	}
 	setDefaults(tl)
 	tl.bucketSets = collections.NewTTLMap(tl.capacity)
+	verifEmit("tl.new", tl, tl.capacity)
 	return tl, nil
 }
 
